@@ -47,6 +47,7 @@ def run(ctx: Ctx) -> None:
     r4(ctx, roles, inv)
     r5(ctx, roles)
     r6(ctx, roles)
+    r7(ctx, roles)
 
 
 # ---------------------------------------------------------------- inventory
@@ -484,3 +485,32 @@ def r6(ctx: Ctx, roles) -> None:
             if d in res.callees(fn, c).funcs:
                 callers.append(fn.key)
     ctx.analysed["dispatcher_callers"] = sorted(set(callers))
+
+
+# ----------------------------------------------------------------------- R7
+def r7(ctx: Ctx, roles) -> None:
+    """The graceful close ends in the closer; the closer is the last statement, not a `finally`.  A caller that runs
+    the coroutine under something that can cancel it between its awaits (wait_for / timeout / a task it cancels)
+    would abandon the connection half closed - open transport, keep-alive armed, nobody holding a reference.  So:
+    either every package caller awaits it directly, or the closer sits in a `finally` that covers the awaits."""
+    res = resolver(ctx)
+    dis = roles.conn.methods.get("disconnect")
+    ctx.require(dis is not None and dis.is_async, "APIConnection.disconnect missing")
+    g = cfg_of(ctx, dis)
+    closing = {n for n in g.reachable() if any(roles.closer in res.callees(dis, c).funcs for c in node_calls(n))}
+    # does every exit, the exceptional ones out of an await included, pass the closer?
+    from ..guard import walk
+
+    protected = bool(closing) and g.exit not in walk(g, {}, lambda n: None, blocked=closing, follow_exc=True) and g.raise_exit not in walk(g, {}, lambda n: None, blocked=closing, follow_exc=True)
+    sites = []
+    for fn in ctx.repo.all_funcs():
+        parents = {}
+        for p_ in ast.walk(fn.node):
+            for ch in ast.iter_child_nodes(p_):
+                parents[ch] = p_
+        for c in own_nodes(fn.node):
+            if isinstance(c, ast.Call) and dis in res.callees(fn, c).funcs:
+                sites.append((fn, c, isinstance(parents.get(c), ast.Await)))
+    ctx.ob("C08.R7", dis, "package callers of the graceful close are located", len(sites) >= 1, f"{len(sites)}")
+    for fn, c, direct in sites:
+        ctx.ob("C08.R7", fn, f"{norm(c)[:50]} is awaited directly (or the closer runs in a finally covering the awaits)", direct or protected, "the coroutine is handed to something that may cancel it between its awaits; its closer is the last statement, not a finally: the connection would be abandoned half closed", node=c)
